@@ -104,3 +104,38 @@ pub const Z: u16 = 1 << 6;
 pub const AD: u16 = 1 << 5;
 pub const CD: u16 = 1 << 4;
 pub const ALL_FLAG_BITS: u16 = QR | AA | TC | RD | RA | AD | CD;
+
+use crate::dns::name::Name;
+use crate::SimpleDnsError;
+
+pub fn any_error() -> SimpleDnsError {
+    let k: u8 = kani::any();
+    match k % 4 {
+        0 => SimpleDnsError::InsufficientData,
+        1 => SimpleDnsError::InvalidDnsPacket,
+        2 => SimpleDnsError::InvalidServiceLabel,
+        _ => SimpleDnsError::InvalidCharacterString,
+    }
+}
+
+/// Contract stub for `<Name as WireFormat>::parse` (assume/guarantee, DESIGN.md 2.3).
+/// The contract itself is discharged for the real `Name::parse` by engine M (C06.contract):
+///   Err(_)  : cursor anywhere in [old, max(old, len)]
+///   Ok(name): old < cursor <= len   (requires old < len)
+pub fn name_parse_stub<'a>(data: &'a [u8], position: &mut usize) -> crate::Result<Name<'a>>
+where
+    'a: 'a,
+{
+    let old = *position;
+    let np: usize = kani::any();
+    if kani::any() {
+        kani::assume(np >= old && (np <= data.len() || np == old));
+        *position = np;
+        Err(any_error())
+    } else {
+        kani::assume(old < data.len());
+        kani::assume(np > old && np <= data.len());
+        *position = np;
+        Ok(Name::new_with_labels(&[]))
+    }
+}
